@@ -2,14 +2,17 @@ package main
 
 import (
 	"bytes"
+	"context"
 	"errors"
 	"fmt"
 	"io"
+	stdslog "log/slog"
 	"runtime"
 	"strings"
 	"sync"
 	"time"
 
+	"github.com/hedzr/is"
 	"github.com/hedzr/is/term/color"
 	"github.com/hedzr/logg/slog"
 
@@ -92,8 +95,11 @@ func (w shortW) Write(p []byte) (int, error) {
 
 // c09verbProbe is the single call site of the verb probes (the caller field is an input of the call).
 func c09verbProbe(lg *slog.Entry, lvl slog.Level, msg string, args []any) {
-	lg.LogAttrs(bg, lvl, msg, args...)
+	lg.LogAttrs(c09verbCtx, lvl, msg, args...)
 }
+
+// the context of the verb probes: the background, or one that holds values for SOME of the logger's context keys
+var c09verbCtx = bg
 
 func c09hist(c *Ctx) {
 	registerCustomLevels()
@@ -166,6 +172,7 @@ func c09hist(c *Ctx) {
 			slog.RemoveFlags(slog.LattrsR)
 		}
 		flagsNow := slog.GetFlags()
+		is.SetDebugMode(false) // a history may leave the process-wide debug mode on (SetLevel(Debug) on some logger does that)
 		p := genProbe(r)
 		if len(p.kvs) > 0 && r.P(40) {
 			// a key given twice (the later one wins), and ONE slice that the application passes again and again
@@ -207,6 +214,13 @@ func c09hist(c *Ctx) {
 				}
 				if hr.P(10) {
 					runtime.GC()
+				}
+				if hr.P(5) {
+					// some OTHER logger is put at Debug level (and logs): that switches the sticky process-wide debug mode
+					// on, which is not an input of anybody's record in a process that was not started in debug mode
+					dl := newRoot("dbg", q.f, w, slog.DebugLevel)
+					capture(log, func() { dl.Debug("a debug record of another logger", "k", 1) })
+					c.R.Add("histories_that_put_another_logger_at_debug_level", 1)
 				}
 				// the global flags are inputs of a call: records of the history may be formatted under other
 				// flags (caller, privacy paths, date/time); the probe's flags are restored before the probe
@@ -350,6 +364,19 @@ func c09hist(c *Ctx) {
 			} else {
 				lgv = newRoot(p.name, p.f, w, slog.AlwaysLevel)
 			}
+			c09verbCtx = bg
+			if vr.P(40) {
+				// registered context keys of which the call's context holds only some (or none)
+				lgv.SetContextKeys("rid", ctxKeyT{"uid"}, "tenant", "zz-last")
+				switch vr.Intn(3) {
+				case 0:
+					c09verbCtx = context.WithValue(bg, "rid", "r-1") //nolint:staticcheck // string keys are what the library documents
+				case 1:
+					c09verbCtx = context.WithValue(context.WithValue(bg, ctxKeyT{"uid"}, "u-1"), "zz-last", 9) //nolint:staticcheck
+				}
+				c.R.Add("verb_probes_on_a_logger_with_context_keys", 1)
+			}
+			defer func() { c09verbCtx = bg }()
 			lgv.SetTimeFormat("TS") // a layout without any time element: the timestamp is constant text
 			half := len(p.kvs) / 2
 			if own := attrsOf(p.kvs[:half]); len(own) > 0 {
@@ -434,6 +461,46 @@ func c09hist(c *Ctx) {
 						map[string]any{"format": p.f.String(), "flags": int64(flagsNow), "child_own_attrs": gen.DescKVs(p.kvs[:half])})
 					return
 				}
+			}
+		}
+		// handler probes: a log/slog handler derived step by step; the same record through the same handler before and
+		// after a younger sibling was derived from the same parent handler (and used) and a history of other records
+		if r.P(25) {
+			hrr := gen.NewR(c.Seed, "C09s", fmt.Sprint(idx), 0)
+			lgH := newRoot("front", p.f, w, slog.AlwaysLevel)
+			lgH.SetTimeFormat("TS")
+			var h stdslog.Handler = slog.NewSlogHandler(lgH, &slog.HandlerOptions{NoColor: p.f != FColor, JSON: p.f == FJSON, NoSource: true, Level: slog.PanicLevel})
+			steps := gen.Pick(hrr, []int{0, 1, 2, 3, 4, 5, 6, 7, 9, 11})
+			for i := 0; i < steps; i++ {
+				h = h.WithAttrs([]stdslog.Attr{stdslog.Int(fmt.Sprintf("h%d", i), i)})
+			}
+			older := h.WithAttrs([]stdslog.Attr{stdslog.String("user", "alice")})
+			rec := stdslog.NewRecord(p.ts, stdslog.LevelInfo, "front-end probe", 0)
+			rec.AddAttrs(stdslog.Int("n", 1))
+			emitH := func(hd stdslog.Handler) []byte {
+				slog.SetMessageMinimalWidth(p.minW)
+				slog.SetLevelOutputWidth(p.tagW)
+				evs := capture(log, func() { _ = hd.Handle(bg, rec) })
+				var b []byte
+				for _, e := range evs {
+					b = append(b, e.Data...)
+				}
+				return b
+			}
+			refH := emitH(older)
+			younger := h.WithAttrs([]stdslog.Attr{stdslog.String("user", "bob")})
+			_ = emitH(younger)
+			n := history(200)
+			slog.RemoveFlags(slog.Lcaller)
+			got := emitH(older)
+			slog.SetFlags(flagsNow)
+			c.R.Add("handler_probe_executions", 1)
+			c.R.Max("handler_probe_derivation_steps", int64(steps+1))
+			if !bytes.Equal(got, refH) {
+				c.R.Violation(idx, "bytes-differ", "C09/bytes-differ/derived-handler/"+p.f.String(),
+					fmt.Sprintf("the same record through the same derived log/slog handler (%d derivation steps) differs after a younger sibling was derived from its parent and %d other records were logged:\n before: %s\n after:  %s", steps+1, n, q(clip(string(refH), 400)), q(clip(string(got), 400))),
+					map[string]any{"format": p.f.String(), "derivation_steps": steps + 1, "history": hdesc})
+				return
 			}
 		}
 		// a severity that was logged BEFORE it was registered, next to one that was not: registered with titles that
